@@ -7,4 +7,6 @@ export CARGO_NET_OFFLINE=true
 # R-MACRO-EXPAND helper (unit content_hash): pre-build it (and its dependencies) against the repo's derive-macro source
 if [ -x tools/derive_expand/run.sh ]; then tools/derive_expand/run.sh "${VERIF_REPO:-/repo}" lib/src/op_store.rs RemoteRefState > /dev/null && echo "derive_expand ok"; fi
 mkdir -p build evidence replay
+# executable contracts on the real crates (bounded stand-in + counterexample search): one build per feature set
+(cd cex && cp /repo/Cargo.lock Cargo.lock && for f in "" git cli repo; do cargo build --offline --release ${f:+--features $f} 2>&1 | tail -1; done)
 echo "setup ok"
